@@ -38,6 +38,8 @@ class Mgr(S.Suite):
             return ["--corpus", "--chains", CHAINS[tier]]
         if job == 0 and build_index == 0 and prop in ("C13", "C17"):
             return ["--corpus"]
+        if job == 0 and build_index == 0 and prop in ("C03", "C18"):
+            return ["--corpus", "--chains", ""]
         return []
 
     def compare_line(self, line, model):
